@@ -81,6 +81,8 @@ pub struct Universe {
     pub k1: bool,
     /// id mapping applied to the real dictionary after building (reference: `dict.mapped`)
     pub mapping: Option<(Vec<u16>, Vec<u16>)>,
+    /// additional (long) sentences explored besides all strings over the alphabet
+    pub extra_sentences: Vec<String>,
 }
 
 impl Universe {
@@ -272,6 +274,7 @@ pub fn u_unk(tier: Tier) -> Vec<Universe> {
                                     opts,
                                     k1: false,
                                     mapping: None,
+                    extra_sentences: vec![],
                                 });
                             }
                         }
@@ -330,6 +333,7 @@ pub fn u_nul(_tier: Tier) -> Vec<Universe> {
                         opts: vec![Opts { ignore_space: true, mgl: 1 }],
                         k1: false,
                         mapping: None,
+                    extra_sentences: vec![],
                     });
                 }
                 out.push(Universe {
@@ -348,6 +352,7 @@ pub fn u_nul(_tier: Tier) -> Vec<Universe> {
                     ],
                     k1: false,
                     mapping: None,
+                    extra_sentences: vec![],
                 });
             }
         }
@@ -397,6 +402,7 @@ pub fn u_k1(_tier: Tier) -> Vec<Universe> {
                     ],
                     k1: true,
                     mapping: None,
+                    extra_sentences: vec![],
                 });
             }
         }
@@ -672,6 +678,7 @@ pub fn u_lex(tier: Tier) -> Vec<Universe> {
                         opts,
                         k1: false,
                         mapping: lmap,
+                        extra_sentences: vec![],
                     });
                 }
             }
@@ -680,3 +687,112 @@ pub fn u_lex(tier: Tier) -> Vec<Universe> {
     out
 }
 
+
+
+/// Sentences whose lengths straddle powers of two (31..=300 characters), built from a handful
+/// of repetition patterns: a finite, completely enumerated family.
+pub fn long_sentences(lengths: &[usize]) -> Vec<String> {
+    let mut out = vec![];
+    for &n in lengths {
+        for x in ["a", "b", "c"] {
+            out.push(x.repeat(n));
+        }
+        let mut ab = "ab".repeat(n / 2);
+        if n % 2 == 1 {
+            ab.push('a');
+        }
+        out.push(ab);
+        out.push(format!("{}b", "a".repeat(n - 1)));
+        out.push(format!("b{}", "a".repeat(n - 1)));
+        out.push(format!("{}éa", "a".repeat(n - 2)));
+        out.push(format!("é{}", "a".repeat(n - 1)));
+        out.push(format!(" {}", "a".repeat(n - 1)));
+        if n > 34 {
+            out.push(format!("{} {}", "a".repeat(32), "a".repeat(n - 33)));
+            out.push(format!("{}c{}", "ab".repeat(16), "a".repeat(n - 33)));
+        }
+    }
+    out
+}
+
+/// "Size axes": quantities beyond the small universes (nodes per boundary, homographs, unknown
+/// entries, categories, sentence lengths), each crossing 16 / 256 style thresholds.
+pub fn u_big(tier: Tier) -> Vec<Universe> {
+    let mut out = vec![];
+    let (cats, ranges) = lex_char_def();
+    let plain = vec![Opts { ignore_space: false, mgl: 0 }, Opts { ignore_space: true, mgl: 2 }];
+    let mk = |name: String, cats: Vec<Cat>, ranges: Vec<(u32, u32, Vec<usize>)>, unkrows: Vec<UnkRow>, sys: Vec<Row>, user: Option<Vec<Row>>, alphabet: Vec<char>, extra: Vec<String>| Universe {
+        name,
+        dict: RefDict {
+            cats,
+            ranges,
+            unk: unkrows,
+            sys,
+            user,
+            nr: 3,
+            nl: 3,
+            conn: matrix_pattern(3, 3, 1),
+            kind: ConnKind::Matrix,
+            bigram: None,
+            astral_takes_nul: false,
+            default_line_pos: 0,
+        },
+        alphabet,
+        opts: plain.clone(),
+        k1: false,
+        mapping: None,
+        extra_sentences: extra,
+    };
+    // 1. many homographs of one surface: more than 16 / 32 / 256 nodes ending at one boundary
+    for n in tier.pick(vec![17usize, 33, 257], vec![16, 17, 33, 255, 256, 257, 300]) {
+        let mut sys: Vec<Row> = (0..n).map(|i| row("a", 1 + (i % 2) as u16, 1 + ((i / 2) % 2) as u16, 200 + (i % 97) as i16, &format!("hom{i}"))).collect();
+        sys[n - 1].cost = 1; // the cheapest homograph is the last one
+        sys[n / 2].cost = 2;
+        sys.push(row("ab", 2, 1, 150, "ab"));
+        sys.push(row("b", 1, 2, 90, "b"));
+        out.push(mk(format!("big/homographs-{n}"), cats.clone(), ranges.clone(), lex_unk_rows(3, 3), sys.clone(), None, vec!['a', 'b'], vec![]));
+        // the same rows as a user lexicon
+        out.push(mk(format!("big/user-homographs-{n}"), cats.clone(), ranges.clone(), lex_unk_rows(3, 3), vec![row("b", 1, 2, 90, "b")], Some(sys), vec!['a', 'b'], vec![]));
+    }
+    // 2. many unknown entries of one category
+    for n in tier.pick(vec![17usize, 257], vec![17, 256, 257, 300]) {
+        let mut u = vec![unk(0, 1, 1, 300, "U-DEFAULT"), unk(1, 0, 0, 50, "U-SPACE"), unk(3, 2, 2, 90, "U-KJ")];
+        for i in 0..n {
+            u.push(unk(2, 1 + (i % 2) as u16, 1 + ((i / 3) % 2) as u16, if i == n - 1 { 3 } else { 400 + (i % 50) as i16 }, &format!("UAL{i}")));
+        }
+        out.push(mk(format!("big/unk-entries-{n}"), cats.clone(), ranges.clone(), u, vec![row("b", 1, 2, 90, "b")], None, vec!['a', 'b'], vec![]));
+    }
+    // 3. the maximum number of categories, characters in the last ones
+    {
+        let mut c18 = vec![cat("DEFAULT", 0, 1, 0), cat("SPACE", 0, 1, 0)];
+        for i in 2..18u16 {
+            c18.push(cat(&format!("C{i}"), (i % 2) as u8, ((i / 2) % 2) as u8, i % 3));
+        }
+        let r18 = vec![(0x20u32, 0x20u32, vec![1usize]), ('a' as u32, 'a' as u32, vec![16]), ('b' as u32, 'b' as u32, vec![17]), ('c' as u32, 'c' as u32, vec![17, 3]), ('d' as u32, 'd' as u32, vec![15, 16])];
+        let u18: Vec<UnkRow> = (0..18).map(|i| unk(i, (i % 3) as u16, ((i + 1) % 3) as u16, 100 + i as i16, &format!("u{i}"))).collect();
+        out.push(mk("big/categories-18".into(), c18, r18, u18, vec![row("ab", 1, 1, 70, "ab")], None, vec!['a', 'b', 'c', 'd', ' '], vec![]));
+    }
+    // 4. long sentences on three small dictionaries
+    let lens = tier.pick(vec![31usize, 32, 33, 64, 65, 255, 256, 257], vec![31, 32, 33, 34, 63, 64, 65, 127, 128, 129, 255, 256, 257, 300]);
+    let longs = long_sentences(&lens);
+    let ul = u_lex(Tier::Quick);
+    if let Some(u) = ul.iter().find(|u| u.name == "lex/nested/matrix3x3s1") {
+        let mut u = u.clone();
+        u.name = "big/long/lex-nested".into();
+        u.alphabet = vec!['a'];
+        u.extra_sentences = longs.clone();
+        out.push(u);
+    }
+    let uu = u_unk(Tier::Quick);
+    for nm in ["unk/chain/T=012/U#0/mult2/a+ab", "unk/single/T=113/U#1/mult1/a", "unk/single/T=110/U#0/mult1/nomatch"] {
+        if let Some(u) = uu.iter().find(|u| u.name == nm) {
+            let mut u = u.clone();
+            u.name = format!("big/long/{nm}");
+            u.alphabet = vec!['a'];
+            u.opts = vec![Opts { ignore_space: false, mgl: 0 }, Opts { ignore_space: true, mgl: 0 }, Opts { ignore_space: false, mgl: 255 }, Opts { ignore_space: false, mgl: 256 }];
+            u.extra_sentences = longs.clone();
+            out.push(u);
+        }
+    }
+    out
+}
